@@ -49,7 +49,7 @@ CLAIMED = {
  'C03': ("Lean theorems for EVERY evaluation of the self-consistency function (arbitrary x, other pairs, densities, omega all universally quantified): hardcore_flag_exact (c + gamma = -1 at every "
          "r <= sigma, all four closures), py_noflag_core / hnc_noflag_core / noflag_core_bound (without the flag the miss is exactly e^{-H/kT}(1+gamma) resp. e^{gamma-H/kT}), "
          "potential_core_agrees_with_closure_core, core_g_eq_residual (inside a flagged core the stored real-space c satisfies c + gamma_in = -1 and g = h+1 IS y/r; uses the DST inverse theorem), "
-         "core_g_bound (|g| <= |y|/r), core_g_noflag_py. The float fact exp(-x)=0 for x>745 is outside the reals and sampled. The closure/cost model is compared with the real closures (gamma up to +-50, "
+         "core_g_bound (|g| <= |y|/r), core_g_noflag_py / core_g_noflag_hnc (without the flag the stored g differs from y/r by exactly e^{-u}(1+gamma) resp. e^{gamma-u}), core_g_eq_residual_any (the mirrored entries j < i that the closure loop never visits). The float fact exp(-x)=0 for x>745 is outside the reals and sampled. The closure/cost model is compared with the real closures (gamma up to +-50, "
          "sigma on/off grid) and PRISM.cost on systems in which only some pairs have cores; c = -1-gamma bitwise, g = y/r after every cost(x), |g| <= |fun|/r on solved objects and core-follows-diameter on "
          "re-used Systems are evaluated on the implementation.",
          "4 C03", "Lean 4 proof (closure algebra + DST inverse through the cost model) + differential correspondence"),
@@ -87,18 +87,18 @@ CLAIMED = {
  'C08': ("Lean theorems, for every length N >= 1 and every reachable Domain: toFourier_riemann and toReal_riemann (the transforms ARE the half-cell-offset Riemann sums of F(k) = (4 pi/k) Int f r sin(kr) dr and "
          "f(r) = (1/(2 pi^2 r)) Int F k sin(kr) dk, last k-term half weight: pins the two prefactors individually and the conjugate spacing dk = pi/(dr N)), toFourier_error_bound (for r f(r) continuous, bounded "
          "by M0 and M1-Lipschitz: |to_fourier(f)(k_j) - (4 pi/k_j) Int_0^rmax f r sin(k_j r) dr| <= (4 pi/k_j) rmax (M1 + M0 k_j/2) dr; via interval integrals, riemann_cell_bound, sine_quadrature_first_order), "
-         "k_to_zero (Filter.Tendsto to the Riemann sum of the volume integral), toReal_phase_bound (the half-cell offset of the backward transform costs at most dr/2 times the discrete moment (dk/(2 pi^2 r)) Sum k^2 |F|). PARTIAL: the k-quadrature/truncation part of the backward error and the closed-form transforms of the reference families are not proved (textbook "
+         "k_to_zero (Filter.Tendsto to the Riemann sum of the volume integral), toFourier_length_unit with scaleDom_inv (the same samples on a grid in another unit of length, spacing u dr and dk/u, transform to u^3 times the values: no absolute length enters), toReal_phase_bound (the half-cell offset of the backward transform costs at most dr/2 times the discrete moment (dk/(2 pi^2 r)) Sum k^2 |F|). PARTIAL: the k-quadrature/truncation part of the backward error and the closed-form transforms of the reference families are not proved (textbook "
          "references, used numerically). The Riemann-sum identities are evaluated on the implementation independently of scipy's DST for random arrays/domains/setter histories; the analytic families are run "
          "on refinement families dr, dr/2, dr/4 (incl. non-5-smooth lengths) with a first-order criterion forward, backward and at k -> 0.",
          "4 C08", "Lean 4 proof (Riemann-sum identities, interval-integral error bound, limit) + differential/analytic validation; partial (backward bound)"),
  'C09': ("Lean theorems about the closure model: py/hnc/msa/msA/msB_eq_published, core_branch (all closures, every r <= sigma), py/hnc/msa_linearises "
-         "(|c+u| <= 2(gamma^2+u^2) on |gamma|,|u| <= 1/2), msA/msB_linearises (the two published Martynov-Sarkisov forms, |c+u| <= 12(gamma^2+u^2) on |gamma|,|u| <= 1/4), elementwise, and for the shipped Martynov-Sarkisov expression ms_shipped_formula plus the negation witness "
+         "(|c+u| <= 2(gamma^2+u^2) on |gamma|,|u| <= 1/2), msA/msB_linearises (the two published Martynov-Sarkisov forms, |c+u| <= 12(gamma^2+u^2) on |gamma|,|u| <= 1/4), elementwise, closureAt_length_unit (distance and contact distance in another unit of length: same value), and for the shipped Martynov-Sarkisov expression ms_shipped_formula plus the negation witness "
          "ms_shipped_not_zero_at_zero (known finding F6, pinned by a baseline test); the model is compared with all 8 classes/aliases on the real grid with bit-exact masks; "
          "published relations, purity/element-wise probes and call HISTORIES (a closure object called repeatedly, also with its own previous output as gamma, must return what a fresh object returns and leave its arguments alone) are evaluated on the implementation.",
          "4 C09", "Lean 4 proof (algebraic laws, exp inequalities) + differential correspondence"),
  'C10': ("Lean theorems about the potential model: hardSphere/exponential/hclj_def, hard_core_set (one common core set {r <= sigma}), lj_def, lj_zero_beyond_cut, "
          "lj_cut_inside, lj_shifted_zero_at_cut, lj_shifted_continuous (ContinuousOn (0,inf)), wca_inside (= 4 eps ((sigma/r)^6 - 1/2)^2), wca_nonneg, wca_zero_beyond, "
-         "wca_continuous, contact_in_core_exact_real, and for the contact rule the negation witness contact_rule_exact_fails next to contact_in_core_tol (known finding F7); "
+         "wca_continuous, hardSphere/exponential/ljCore/lennardJones/hcLennardJones/wca_length_unit (every length - distance, sigma, range, cut-off - multiplied by u > 0: the same energy), contact_in_core_exact_real, and for the contact rule the negation witness contact_rule_exact_fails next to contact_in_core_tol (known finding F7); "
          "the model is compared with the five classes on real grids with bit-exact masks; documented u(r), cut/continuity/sign, sigma defaulting through createPRISM and the "
          "contact classification for sigma = every multiple of dr are evaluated on the implementation.",
          "4 C10", "Lean 4 proof (piecewise definitions, continuity, algebra) + differential correspondence"),
@@ -126,9 +126,9 @@ CLAIMED = {
  'C18': ("Lean theorems about the Debyer model (Model/Debyer.lean: _chunk, the row-per-thread accumulation, gather, rescale, frame average), over the reals for EVERY number of chunks, sites, molecules, frames and every box: "
          "chunk_rows_partition / chunk_rows_cover_once (the rows of _chunk(n, c) cover every index exactly once, also for c > n), chunk_refused_iff, gathered_eq, chunk_count_independent and debyer_chunk_count_independent "
          "(the result does not depend on the number of chunks), cross_is_debye_sum (1/(N_a+N_b) sum over intramolecular pairs of Mathlib's Real.sinc(k r)), self_is_debye_sum (1 + 1/N sum over i != j; the loops visit i < j and double) and "
-         "self_is_full_double_sum (the i = j terms are the Kronecker delta), debyer_is_frame_average, cross/self_order_independent (any permutation of the sites), cross_swap_symmetric (omega_ab = omega_ba), miComp_nearest_image (the folded separation is the distance to the NEAREST "
+         "self_is_full_double_sum (the i = j terms are the Kronecker delta), debyer_is_frame_average, cross/self_order_independent (any permutation of the sites), cross_swap_symmetric (omega_ab = omega_ba), frameOmega_length_unit with miComp/miDist/pairTerm_scale (coordinates and boxes x u, wavenumbers / u: every frame value unchanged - no absolute length, e.g. no coincidence threshold, enters), miComp_nearest_image (the folded separation is the distance to the NEAREST "
          "periodic image for every separation and box) with the negation witness miCompShipped_not_nearest and miComp_eq_shipped for the repaired rule; and for ANY scalar type (also the Float the driver executes): schedule_row, "
-         "schedule_independent, stream_gives_chunkAcc, any_interleaving_gives_chunkAcc (every interleaving of the per-chunk update streams leaves the model's chunk sums in the shared table: thread count and timing cannot change what is gathered). "
+         "frameOmega_renameMol / debyer_renameMol (any injective renaming of the molecule labels - shifted beyond 2^31, hashed - leaves the executed result unchanged), schedule_independent, stream_gives_chunkAcc, any_interleaving_gives_chunkAcc (every interleaving of the per-chunk update streams leaves the model's chunk sums in the shared table: thread count and timing cannot change what is gathered). "
          "PARTIAL where the truth is in the runtime: float32 rounding is compared through an error bound computed from the terms, and the OpenMP runtime itself (a data race introduced by a code change) is outside any executable model; it is sampled with 1-8 "
          "threads, repetitions and chunk counts on every run. The extension is built from /repo's current Debyer.pyx on every run (cython + gcc -fopenmp into a scratch directory); results are compared with the Lean model on the same float32-rounded inputs and with an independent float64 Debye sum.",
          "4 C18", "Lean 4 proof (finite sums, partition of the index range, interleavings) + differential correspondence with the freshly built extension; partial for float32 rounding and the OpenMP runtime"),
